@@ -265,8 +265,8 @@ def run_shard(shard):
                         prog, provided = dag_program(shape, ext_src, out_default, order, is_async=(runner == "async"))
                         if none_variant == "generators":
                             for sp in prog["nodes"]:
-                                if len(sp.get("outs", [])) == 1:
-                                    sp["gen"] = True
+                                if len(sp.get("outs", [])) <= 1:
+                                    sp["gen"] = True  # (also side-effect-only nodes: their body must still run)
                             acc.counters["runs_with_generator_nodes"] += 1
                         elif none_variant == "falsy":
                             for sp in prog["nodes"]:
